@@ -217,6 +217,43 @@ func TestC10Converged(t *testing.T) {
 			if origins[B.IP()] != 1 {
 				c.Fatalf("ping n%d -> n%d was not handled by the destination", a, b)
 			}
+			// A routed frame of a generated size (one in two: a size at which it
+			// fills a link's buffer exactly) must arrive at B as well.
+			if c.Bool("sized") {
+				mt := core.OneOf(c, "sized.type", frame.NetworkTraffic, frame.SessionData, frame.MessageType(77))
+				size := c.Int("sized.len", 1, 3000)
+				fit := c.Bool("sized.fit")
+				if fit {
+					if sz, ok := exactFit(A.Builder, A.IP(), B.IP(), mt, nil, 0, linkTiers[c.Pick("sized.tier", len(linkTiers))]); ok {
+						size = sz
+					}
+				}
+				f, err := A.Builder.NewFrameV1(A.IP(), B.IP(), mt, nil, c.Bytes("sized.payload", size), nil)
+				if err != nil {
+					c.Fatalf("frame: %v", err)
+				}
+				f.SetTTL(32)
+				fd, _ := f.FrameDataWithMargins(0, 0)
+				key, _, _, _ := c10Key(fd)
+				ms.vn.Crossings = nil
+				if err := A.Rtr.RouteFrame(f); err != nil {
+					c.Fatalf("n%d cannot route a frame with a message of %d bytes to n%d: %v", a, size, b, err)
+				}
+				c10Drain(c, ms, 5000)
+				arrived := false
+				for _, cr := range ms.vn.Crossings {
+					if k, _, _, ok := c10Key(cr.Data); ok && k == key && cr.To == B.IP() {
+						arrived = true
+					}
+				}
+				if !arrived {
+					c.Fatalf("a routed frame n%d -> n%d (distance %d, type %d, message of %d bytes) never arrived at its destination", a, b, topo.dist(a, b), mt, size)
+				}
+				c10Audit(c, ms, map[string]c10Inject{key: {ttl: 32, at: A.IP()}}, false)
+				if fit {
+					c.Class("routed-frame-fills-a-link-buffer-exactly")
+				}
+			}
 			d := topo.dist(a, b)
 			c.Eval(fmt.Sprintf("%s|%d->%d", topo, a, b), d >= 3, func() any {
 				return map[string]any{"topology": topo.String(), "from": a, "to": b, "distance": d, "crossings": len(ms.vn.Crossings)}
